@@ -82,6 +82,11 @@ var c01 = gen.Register(&gen.Check[caseC01]{
 		for i, v := range gen.DictFixed(ref.N, 2*gen.DictStride()) {
 			out = append(out, caseC01{P: []pt.Spec{g, gz}[i%2], K: gen.H(v)})
 		}
+		for i, v := range gen.RecodingDense(ref.N) { // the longest, densest signed-digit recodings of every window width
+			if i%gen.DictStride() == 0 {
+				out = append(out, caseC01{P: []pt.Spec{g, gz}[i%2], K: gen.H(v)})
+			}
+		}
 		out = append(out, caseC01{P: g, K: "00", NilK: true}, caseC01{P: gz, K: "00", NilK: true}, caseC01{P: id, K: "00", NilK: true})
 		return out
 	},
